@@ -311,6 +311,8 @@ class Interp:
             return True
         if v is None:
             return False
+        if isinstance(v, tuple) and v and v[0] == 'ptr':
+            return True
         if isinstance(v, bool):
             return v
         raise AnalysisBroken('truth value of %r' % (v,))
@@ -798,6 +800,19 @@ class Interp:
                 return const(1, False, 1 if self.truth(self.expr(ch[1], env), ch[1]) else 0)
             a = self.expr(ch[0], env)
             b = self.expr(ch[1], env)
+            # pointers into a constant character table (the result of strchr): null tests and the distance from the table's start
+            pa = isinstance(a, tuple) and a and a[0] == 'ptr'
+            pb = isinstance(b, tuple) and b and b[0] == 'ptr'
+            if pa or pb:
+                def is_null(x):
+                    return x is None or (isinstance(x, IV) and x.concrete() and x.lo == 0)
+                if op in ('==', '!=') and (is_null(a) or is_null(b)):
+                    return const(1, False, 1 if op == '!=' else 0)
+                if op == '-' and pa and isinstance(b, tuple) and b[0] == 'str' and b[1] == a[1]:
+                    return const(64, True, a[2])
+                if op == '-' and pa and pb and a[1] == b[1]:
+                    return const(64, True, a[2] - b[2])
+                raise AnalysisBroken('unsupported pointer arithmetic %s at %s' % (op, pos(n)))
             return self.binop(op, a, b, n)
         if k == 'CompoundAssignOperator':
             op = n['opcode'][:-1]
@@ -1291,6 +1306,22 @@ class Interp:
                         self.store(lv, const(w_, False, val) if known else IV(w_, False, 0, (1 << w_) - 1), env)
                         return None
                 raise AnalysisBroken('unmodelled memcpy at %s' % pos(n))
+            if name in ('strchr', 'memchr') and len(args) >= 2:
+                # search in a constant character table; strchr also finds the terminating NUL
+                tab = self.expr(args[0], env)
+                cv = self.expr(args[1], env)
+                if not (isinstance(tab, tuple) and tab[0] == 'str' and isinstance(tab[1], str)):
+                    raise AnalysisBroken('%s in something that is not a constant string at %s' % (name, pos(n)))
+                if not (isinstance(cv, IV) and cv.concrete()):
+                    raise NeedSplit(None, '%s of a non-concrete character' % name)
+                text = tab[1] + ('\0' if name == 'strchr' else '')
+                if name == 'memchr':
+                    cnt = self.expr(args[2], env)
+                    if not (isinstance(cnt, IV) and cnt.concrete()):
+                        raise AnalysisBroken('memchr with a non-constant length at %s' % pos(n))
+                    text = (tab[1] + '\0')[:cnt.lo]
+                i_ = text.find(chr(cv.lo & 0xFF))
+                return ('ptr', tab[1], i_) if i_ >= 0 else None     # null pointer, as CXXNullPtrLiteralExpr
             if name in ('div', 'ldiv', 'lldiv') and len(args) == 2:
                 # std::div: quotient truncated towards zero, remainder with the sign of the dividend
                 a_, b_ = self.expr(args[0], env), self.expr(args[1], env)
